@@ -59,7 +59,7 @@ def configs(tier):
                     out.append({'mode': 'full', 'n': n, 'L': L, 'centre': 'peak', 'method': method,
                                 'return_samples': True, 'api': 'obj'})
     # the same option dictionary used for two analyses in a row (boundary must hold in both)
-    for pat in patterns(11 if q else 12, 2 if q else 6):
+    for pat in (['++-++-+--+-', '+-++-+-++--'] if q else ['++-++-+--+-', '++-+-+--++-', '++--+-+-++-', '+-++-+-++--', '+-++--+--+-', '+-+-+-+--++']):
         out.append({'mode': 'shape', 'n': len(pat), 'L': 0, 'centre': 'peak', 'fk': 'default', 'pattern': pat, 'repeat': True})
     # filter length given in seconds / cycles through the object API and the functional API
     for api in ('obj', 'func'):
